@@ -7,4 +7,11 @@ macro "step_cases " l:ident hs:ident : tactic =>
   `(tactic| (cases $l:ident <;> simp only [step?, Sys.issue, Sys.runStep] at $hs:ident <;>
              (repeat' split at $hs:ident) <;> (try cases $hs:ident)))
 
+/-- the state right after `issue` allocated the operation id and logged `issued` -/
+def issueBase (s : Sys) (op : OpSpec) : Sys :=
+  { s with nextOid := s.nextOid + 1, spec := setF s.spec s.nextOid op,
+           deadline := setF s.deadline s.nextOid (opDeadline s.clock op),
+           inflight := s.inflight + 1,
+           ev := s.ev ++ [.issued s.nextOid op.kind op.timeout s.clock] }
+
 end Rsactor.Model
